@@ -420,6 +420,19 @@ def run(run):
                                 run.count('file ' + enc)
                     run.case('%s|%s' % (frmat, args), n * m > 1, {'format': frmat, 'objects': objs, 'properties': props, 'bools': bstr(bools)})
                     run.count(frmat)
+            if fileno % 97 == 1:
+                for bn, bm in ((1000 + rng.randint(0, 30), 1), (1, 1000 + rng.randint(0, 30))):
+                    with guard(run, 'cxt text of a %d x %d context' % (bn, bm), []):
+                        bo, bp = ['g%d' % i for i in range(bn)], ['a%d' % j for j in range(bm)]
+                        bb = [tuple(rng.random() < .5 for _ in range(bm)) for _ in range(bn)]
+                        btext = Context(bo, bp, bb).tostring('cxt')
+                        blines = btext.split('\n')
+                        if blines[:5] != ['B', '', str(bn), str(bm), '']:
+                            run.fail('cxt header of a %d x %d context' % (bn, bm), blines[:5], ['B', '', str(bn), str(bm), ''], [])
+                        got_big = strict_cxt(btext)
+                        if got_big is None or (list(got_big[0]), list(got_big[1]), [tuple(r) for r in got_big[2]]) != (bo, bp, bb):
+                            run.fail('independent strict cxt reader on a %d x %d context' % (bn, bm), None, None, [])
+                    run.count('cxt with 1000+ rows / columns')
             # characters that str.splitlines() treats as line boundaries but the formats do not: inside labels they are data
             if n * m <= 4:
                 seps = ['\x0b', '\x0c', '\x1c', '\x1d', '\x1e', '\x85', '\u2028', '\u2029']
